@@ -89,6 +89,8 @@ def plan(tier, seed):
         specs.append({'kind': 'enum4', 'slice': sl, 'nslices': nsl, 'part': part, 'parts': parts})
     for r in range(rshards):
         specs.append({'kind': 'random', 'n': nrand // rshards, 'rshard': r})
+    for part in range(2 if tier == 'quick' else 1):
+        specs.append({'kind': 'twoheads', 'part': (seed + part) % 6 if tier == 'quick' else 0, 'parts': 6 if tier == 'quick' else 1})
     # wildcard pairs / triples over the full constraint vocabulary (lists and notNamespace included)
     wparts = 8
     for part in range(wparts):
@@ -299,6 +301,28 @@ def run_shard(spec, res):
                 continue
             res.count(kind + ':models')
             judge(res, node, {}, kind)
+    elif kind == 'twoheads':
+        # XSD 1.1: one element (m) in the substitution groups of two unrelated heads (h and g): the particles of the two
+        # heads compete for m although neither head substitutes the other
+        import itertools
+        occs = ((1, 1), (0, 1), (0, None))
+        leaves = [('h', o[0], o[1]) for o in occs] + [('r', 'g~g,m', o[0], o[1]) for o in occs] + \
+                 [('r', 'm~m', o[0], o[1]) for o in occs] + [('e', 'a', o[0], o[1]) for o in occs[:2]]
+        k = 0
+        shapes = itertools.chain(itertools.product(leaves, repeat=2), itertools.product(leaves, repeat=3))
+        for kids in shapes:
+            if not any(c[0] == 'r' and c[1].startswith('g') for c in kids):
+                continue
+            for g in ('s', 'c'):
+                for wrap in (False, True):
+                    k += 1
+                    if k % spec['parts'] != spec['part']:
+                        continue
+                    node = (g, tuple(kids), 1, 1)
+                    if wrap:
+                        node = ('s', (('c', tuple(kids[:2]), 0, 1),) + tuple(kids[2:]) + (('e', 'b', 1, 1),), 1, 2)
+                    res.count('twoheads:models')
+                    judge(res, node, {'two_heads': True}, 'twoheads')
     elif kind == 'enumw':
         cons = M.WILDCARD_CONS + M.WILDCARD_CONS_MORE
         occs = ((1, 1), (0, 1), (1, None))
